@@ -120,8 +120,8 @@ def check_c01(tier, seed):
     v = Verdict("C01", tier, seed)
     st = new_stage()
     merged = Merged()
-    builds = ["shipped", "w32", "be0"]
-    libs = run_parallel([lambda n=n: mkbuild(n).build(st, jobs=5) for n in builds], workers=3)
+    builds = ["shipped", "w32", "be0", "ua0"]
+    libs = run_parallel([lambda n=n: mkbuild(n).build(st, jobs=4) for n in builds], workers=4)
     per = {}
     for lib in libs:
         m = run_dp(st, lib, ["h_dp.c"], "c01", tier, seed, merged, v)
@@ -142,8 +142,8 @@ def check_c02(tier, seed):
     v = Verdict("C02", tier, seed)
     st = new_stage()
     merged = Merged()
-    builds = ["shipped", "w32", "be0"]
-    libs = run_parallel([lambda n=n: mkbuild(n).build(st, jobs=5) for n in builds], workers=3)
+    builds = ["shipped", "w32", "be0", "ua0"]
+    libs = run_parallel([lambda n=n: mkbuild(n).build(st, jobs=4) for n in builds], workers=4)
     per = {}
     for lib in libs:
         m = run_dp(st, lib, ["h_dp.c"], "c02", tier, seed, merged, v)
@@ -181,7 +181,7 @@ def check_c03(tier, seed):
     v = Verdict("C03", tier, seed)
     st = new_stage()
     merged = Merged()
-    libs = run_parallel([lambda n=n: mkbuild(n).build(st, jobs=5) for n in ("shipped", "w32", "be0")], workers=3)
+    libs = run_parallel([lambda n=n: mkbuild(n).build(st, jobs=5) for n in ("shipped", "w32", "be0", "ua0")], workers=4)
     lib = libs[0]
     m1 = run_dp(st, lib, ["h_dp.c"], "c03", tier, seed, merged, v)
     m2 = run_mc(st, lib, "h_par.c", "c03p", tier, seed, merged, v, nshards=NCPU)
@@ -233,10 +233,14 @@ def check_c05(tier, seed):
     v = Verdict("C05", tier, seed)
     st = new_stage()
     merged = Merged()
-    lib = mkbuild("shipped").build(st)
-    run_mc(st, lib, "h_ctr.c", "c05", tier, seed, merged, v, nshards=26)
-    if tier == "thorough":      # the 32-bit-word build compiles different vector S-box code in the 128-bit back end
-        run_mc(st, mkbuild("w32").build(st), "h_ctr.c", "c05", tier, seed, merged, v, nshards=26)
+    # the platform switches select different code in the CTR back ends (word size: vector S-box code; unaligned access:
+    # the byte-wise load / write-back arms; byte order: the scalar arms), so the same exploration runs in each build
+    names = ["shipped", "w32", "ua0", "be0"] + (["w32ua0"] if tier == "thorough" else [])
+    libs = run_parallel([lambda n=n: mkbuild(n).build(st, jobs=4) for n in names], workers=4)
+    lib = libs[0]
+    for lb in libs:
+        run_mc(st, lb, "h_ctr.c", "c05", tier, seed, merged, v, nshards=26)
+    if tier == "thorough":
         run_huge(st, lib, "ctr", tier, seed, merged, v)     # encrypt(21) then one request of more than 2^32 bytes, in place, widest back end of each cipher
     closed = all(val == 0 for k, val in merged.notes.items() if k.startswith("kinds_cut_by_depth_cap"))
     cov = mc_cov(merged,
@@ -244,7 +248,7 @@ def check_c05(tier, seed):
                  "on real objects of every available back end in lock step; states merged by context byte image + model state; "
                  "every transition's output compared with in xor E(c+i) from the reference model; states = distinct canonical states, "
                  "transitions = operations executed with oracles on (each after a full replay of its history on fresh objects)",
-                 {"builds": [lib.describe()]})
+                 {"builds": [b.describe() for b in libs]})
     return v.finish("model_checking", cov,
                     ["reference block ciphers ref/*.c; keys/tweaks/counters outside the alphabets are not covered",
                      "stream bound 2*batch+B+1 bytes per segment (batch periodicity argument in DESIGN.md 4/C05)"],
@@ -258,8 +262,8 @@ def check_c06(tier, seed):
     lib = mkbuild("shipped").build(st)
     run_mc(st, lib, "h_ctr.c", "c06", tier, seed, merged, v, nshards=26)
     mp = run_mc(st, lib, "h_par.c", "c06p", tier, seed, merged, v, nshards=NCPU)
-    if tier == "thorough":
-        lw = mkbuild("w32").build(st)
+    others = run_parallel([lambda n=n: mkbuild(n).build(st, jobs=8) for n in ("w32", "ua0")], workers=2)
+    for lw in others:   # other word size / no unaligned access: other code in the vector back ends' load, store and S-box arms
         run_mc(st, lw, "h_ctr.c", "c06", tier, seed, merged, v, nshards=26)
         run_mc(st, lw, "h_par.c", "c06p", tier, seed, merged, v, nshards=NCPU)
     closed = all(val == 0 for k, val in merged.notes.items() if k.startswith("kinds_cut_by_depth_cap"))
@@ -269,7 +273,7 @@ def check_c06(tier, seed):
                  "tweak changes on a plain key schedule, calls after cleanup and the invalid-call menu; oracle: every return value "
                  "and every output byte equal across back ends; states = distinct tuples of per-back-end context images. Parallel ECB: byte counts 0..25 blocks (+1/-1 byte) x "
                  "{encrypt, decrypt} x data families x key configurations, and zeroed / unkeyed / cleaned-up / rejected-key / NULL objects, on one object per back end in lock step",
-                 {"builds": [lib.describe()], "parallel_lockstep_evaluations": mp.evaluations})
+                 {"builds": [lib.describe()] + [b.describe() for b in others], "parallel_lockstep_evaluations": mp.evaluations})
     return v.finish("model_checking", cov,
                     ["back ends the host cannot execute (NEON) are not covered", "the defined CTR regime itself is decided per back end against the stream model by C05"],
                     exhaustive=closed)
@@ -296,9 +300,9 @@ def check_c07(tier, seed):
     v = Verdict("C07", tier, seed)
     st = new_stage()
     merged = Merged()
-    libs = run_parallel([lambda n=n: mkbuild(n).build(st, jobs=8) for n in ("shipped", "w32")], workers=2)
+    libs = run_parallel([lambda n=n: mkbuild(n).build(st, jobs=5) for n in ("shipped", "w32", "ua0")], workers=3)
     lib = libs[0]
-    for l in libs:      # the 32-bit-word build compiles different vector S-box code (sbox_two) in the 128-bit back end
+    for l in libs:      # the 32-bit-word build compiles different vector S-box code (sbox_two) in the 128-bit back end; without unaligned access the byte-wise load / store arms
         run_mc(st, l, "h_par.c", "c07", tier, seed, merged, v, nshards=NCPU)
     huge = run_huge(st, lib, "par", tier, seed, merged, v).evaluations if tier == "thorough" else 0
     cov = {"evaluations": merged.evaluations, "distinct_nontrivial": merged.distinct,
@@ -379,10 +383,11 @@ def check_c11(tier, seed):
     msan, shipped, o0 = builds
     env = dict(os.environ); env["MSAN_OPTIONS"] = "exitcode=77:halt_on_error=1"
     per = {}
-    subs = C11_SUBS if tier == "thorough" else [x for x in C11_SUBS if x[1] != "c04"]
+    subs = C11_SUBS if tier == "thorough" else [x for x in C11_SUBS if x[0] != "h_sched.c"]
     # (h_life.c c16: the allocation-failure histories, whose caller object is painted / poisoned before the failing init)
-    # quick: a deterministic part of each enumeration (the first shards of the usual split)
-    part = None if tier == "thorough" else 3
+    # both tiers run every shard of these enumerations (the quick tier used to run the first three of sixteen, which
+    # left out whole ciphers' simple-key worlds once the alphabets had grown); quick leaves out the h_sched.c worlds
+    part = None
     work = []
     # (a) MemorySanitizer: explicit shadow tests on everything the API returns
     def one_msan(src, sub, mc):
@@ -640,10 +645,12 @@ def check_c19(tier, seed):
            "rule": "Arduino classes compiled unchanged with the host g++ (portable path; USE_AVR_INLINE_ASM undefined off-AVR) against the C library: (1) BG/BYTE/PAIR/BIT families over [tweak||]key||block "
                    "through setKey/[setTweak]/encryptBlock/decryptBlock of all 11 block-cipher classes; (2) every history up to depth %d over {setKey(K0|K1|wrong length), setTweak(zero|FF|R1|R2|NULL|wrong length), "
                    "clear+setKey, swapModes} for the four tweakable classes and Mantis8, oracle = C library keyed afresh with the last key/tweak/mode on 4 blocks x 2 directions; (3) CTR<T> over the five "
-                   "Skinny-128 classes x IVs with carries through every byte x every sequence of up to %d encrypt lengths from {0,1,2,15,16,17,31,32,33,49} in lock step with skinny128_ctr_* on the generic back end; "
-                   "wrong-length setKey/setTweak/setIV must return false and change nothing" % (5 if tier == "thorough" else 4, 4 if tier == "thorough" else 3),
+                   "Skinny-128 classes x IVs with carries through every byte x every sequence of up to %d encrypt lengths from {0,1,2,15,16,17,31,32,33,49} in lock step with skinny128_ctr_* on the generic back end, "
+                   "each with setCounterSize(16) issued before setKey, between setKey and setIV, or after setIV, and with counter sizes 1, 2, 4 and 15 at the same three places (encrypt and decrypt alternating) against "
+                   "in xor E(c_i) built from the C library's block function with c_i incremented in the last bytes only; a second setKey in the middle of a stream keeps counter and counter size; "
+                   "wrong-length setKey/setTweak/setIV and setCounterSize(0 | 17) must return false and change nothing" % (5 if tier == "thorough" else 4, 4 if tier == "thorough" else 3),
            "samples": merged.samples, "notes": merged.notes, "evaluations_per_part": per, "builds": [lib.describe(), "g++ -O2 arduino/libraries/Skinny/*.cpp"]}
-    return v.finish("exploration", cov, ["the AVR inline-assembly path is out of reach on the host", "histories that use an object before its first setKey, or setCounterSize < 16, have no C counterpart and are not in the alphabet",
+    return v.finish("exploration", cov, ["the AVR inline-assembly path is out of reach on the host", "histories that use an object before its first setKey have no C counterpart and are not in the alphabet", "setCounterSize < 16 has no C CTR counterpart: its reference is the C block function under the documented increment rule",
                                          "the C library side is tied to the specification by C01-C05"])
 
 
@@ -1001,7 +1008,7 @@ def check_c18(tier, seed):
     combos = sum(val for k, val in merged.notes.items() if k.startswith("combinations["))
     cov = {"states": int(combos), "transitions": merged.evaluations, "traces_validated_against_impl": merged.traces,
            "evaluations": merged.evaluations, "distinct_nontrivial": merged.distinct,
-           "rule": "operation menu of 18 operations (every public function; private objects, and read-only use of shared key schedules / parallel objects); all ordered pairs as two coroutines and selected "
+           "rule": "operation menu of 20 operations (every public function; private objects, read-only use of shared key schedules / parallel objects, and distinct objects writing adjacent byte-exact slices of one output array); all ordered pairs as two coroutines and selected "
                    "triples, preemption bound %d, scheduling points at accesses to the conflict set W discovered from instrumented loads/stores (library built with clang trace-loads/trace-stores); "
                    "with W empty there is one equivalence class per combination and one execution decides it; states = thread combinations explored, transitions = executions run under the scheduler. "
                    "Positive control (harness-owned lost update, needs one preemption) must be found in every run. Free-running ThreadSanitizer pass over the same bodies on real threads." % (3 if tier == "thorough" else 2),
